@@ -218,6 +218,38 @@ def run(ctx):
                 if labs.get(name) != addr:
                     s2.violate({"src": src}, hex(addr), labs.get(name), f"label {name} after .text is not start + emitted size")
                     break
+        # a .text inside a macro body (or a loop body applying it) expanded under different effective tables: every
+        # expansion is encoded with the table in effect where it is expanded
+        for i in range(12 if tier == "quick" else 150):
+            f1, e1 = gen_table(rng, "single")
+            f2, e2 = gen_table(rng, "single")
+            for nm, ft in (("a.tbl", f1), ("b.tbl", f2)):
+                with open(os.path.join(tmp, nm), "w", encoding="utf-8") as fh:
+                    fh.write(ft)
+            ok_ = lambda t: all(c not in t for c in "'\\[\n")  # noqa: E731
+            common = [t for t, _, _ in e1 if ok_(t) and any(t == u for u, _, _ in e2)] or [t for t, _, _ in e1 if ok_(t)]
+            if not common:
+                continue
+            msg = "".join(rng.choice(common) for _ in range(rng.randrange(1, 5)))
+            shape = i % 3
+            if shape == 0:
+                src = f"*=0x008000\n.macro say_zq() {{\n.text '{msg}'\n}}\n.table 'a.tbl'\nsay_zq()\nl1:\n.scope sc_zq {{\n.table 'b.tbl'\nsay_zq()\nl2:\n}}\nsay_zq()\nl3:\n"
+                tabs = ["a", "b", "a"]
+            elif shape == 1:
+                src = f"*=0x008000\n.macro say_zq() {{\n.text '{msg}'\n}}\n.table 'a.tbl'\nsay_zq()\nl1:\n.table 'b.tbl'\nsay_zq()\nl2:\n{{\n.table 'a.tbl'\nsay_zq()\nl3:\n}}\n"
+                tabs = ["a", "b", "a"]
+            else:
+                src = f"*=0x008000\n.macro say_zq() {{\n.text '{msg}'\n}}\n.table 'b.tbl'\n.for k_zq := 0, 2 {{\nsay_zq()\n}}\nl1:\n{{\n.table 'a.tbl'\n.for k_zq := 0, 1 {{\nsay_zq()\n}}\nl2:\n}}\nsay_zq()\nl3:\n"
+                tabs = ["b", "b", "a", "b"]
+            ta, tbb = Table(os.path.join(tmp, "a.tbl")), Table(os.path.join(tmp, "b.tbl"))
+            exp = b"".join((ta if t == "a" else tbb).to_bytes(msg) for t in tabs)
+            r = impl.assemble(src, cwd=tmp)
+            s2.cases += 1
+            s2.count("text-in-macro-under-tables")
+            data = b"".join(b for _, b in r["blocks"]) if r["status"] == "ok" else None
+            if data != exp:
+                s2.violate({"src": src, "a.tbl": f1, "b.tbl": f2}, exp.hex(), data.hex() if data is not None else (r.get("exc") or r.get("error")),
+                           "a .text inside a macro body expanded under different tables is not encoded with the table in effect at each expansion")
         # quoted texts with escaped quotes (also as the last character) over a table that has an entry for the quote
         qt = "41=A\n42=B\n27='\n2d=-\n"
         with open(os.path.join(tmp, "q.tbl"), "w", encoding="utf-8") as fh:
